@@ -55,6 +55,10 @@ CHECKS = {
          "Generated scenarios share one compiled R1CS / sparse system (witness-dependent lookup table, commitment, hints), Groth16 and PLONK keys, proofs and a solver-option slice with spare capacity among 2-8 goroutines making Solve / Prove / Verify calls with distinct satisfying and non-satisfying witnesses (also on a restored-from-bytes system, also while other circuits compile in the background); every concurrent call must return what it returned alone, a later sequential pass must still match, and the child must not crash, race or wedge.",
          "Interleavings are sampled by repetition x GOMAXPROCS values, not enumerated; there is no schedule control. Assurance: no divergence in N repetitions and (thorough) a clean race-detector run.",
          "DESIGN.md §3 C10"),
+ "C11": ("metamorphic property-based testing: repeated compilation must give identical bytes (rapid; child processes)",
+         "Generated circuits using hints, commitments, lookup tables, range checks, emulated arithmetic, multicommit, nested deferred callbacks, Println and the sparse builder's wire-query interface are compiled K times sequentially, in parallel goroutines while other circuits compile, and in fresh processes; the serialized constraint systems must be byte-identical, and keys of the first compilation must prove and verify with the K-th.",
+         "'Every run and process' is sampled (K=12/40 repeats, 6 parallel, 2 processes); a map of >= 3 entries iterated in a rarely taken path can need more tries than K.",
+         "DESIGN.md §3 C11"),
 }
 
 PENDING = {}
